@@ -79,6 +79,28 @@ def check_versioned_key_codec(ck, R4):
 
 
 
+def check_reference_resolved_afresh(ck, R):
+    """A stored function reference is resolved against the current code on every decode: every
+    return of decode_fn_reference is preceded by a from_qualified_name(...) call built from the
+    state (a reference remembered from an earlier decode may designate a function that has been
+    edited or removed since, or one decoded with other partial arguments)."""
+    from .fresh import every_return_through
+    df = FA(ck, MC + ".decode_fn_reference")
+    every_return_through(
+        ck, R, df, lambda c: A.call_attr(c) == "from_qualified_name", "resolved-afresh",
+        "every decoded reference is resolved by from_qualified_name on this very call",
+        "decode_fn_reference can return a reference without resolving it through from_qualified_name on this call: a reference "
+        "remembered from an earlier decode keeps designating the function as it was then (edited / removed callees stay "
+        "'local' at their old version; partial arguments of the first decode are reused)")
+    for c in df.calls("from_qualified_name"):
+        want = {"qualified_name": "qualifiedName", "partial_args": "partialArgs", "partial_kwargs": "partialKwargs", "parameter_names": "parameterNames"}
+        for kw, field in want.items():
+            v = A.kwarg(c, kw)
+            ok = v is not None and field in A.strings_in(v)
+            ck.ob(R, df.key(c, "state-field:" + field), ok, "%s is taken from state['%s']" % (kw, field) if ok else
+                  "from_qualified_name is not given %s from state['%s']" % (kw, field), df.where(c))
+
+
 def check_decoders_pure(ck, R):
     """Every decoder is a function of the encoded state alone (cls, state): a decoder that can be
     handed a pre-resolved value lets a caller substitute something that the state does not say."""
@@ -90,6 +112,7 @@ def check_decoders_pure(ck, R):
             ck.ob(R, m.qual + "::signature", ok, "%s(state)" % name if ok else
                   "%s takes %s: a value decoded elsewhere can be substituted for what the encoded state designates (e.g. one resolved function "
                   "reference reused for invocations with different partial arguments)" % (name, ps), A.loc(m, m.node))
+    check_reference_resolved_afresh(ck, R)
     di = FA(ck, MC + ".decode_invocation_metadata")
     comps = [n for n in A.walk_body(di.node) if isinstance(n, ast.ListComp) and "invocations" in A.norm(n.generators[0].iter)]
     ok = len(comps) == 1 and A.norm(comps[0].elt) == "cls.decode_fn_reference_with_args(%s)" % A.norm(comps[0].generators[0].target)
@@ -226,14 +249,20 @@ def check(ck):
         ck.ob(R3, fa.key(None, "typed-args"), n == want, "all %d argument collections use %s" % (want, fn) if n == want else
               "%s uses %s for %d of %d argument collections" % (fa.fi.name, fn, n, want), fa.where())
 
-    check_versioned_key_codec(ck, R4)
+    ck.run(check_versioned_key_codec, ck, R4)
+    # a decoded reference is rebuilt by parsing its qualified name: the parser's delimiter discipline
+    # (shared with C12.R1) is part of the round trip
+    ck.rule("C11.R7", "qualified names are parsed back into the parts they were built from (version cut at the first '#', "
+                      "cluster at the first '::', module at the first ':')", 5)
+    from .c12 import check_parser
+    ck.run(check_parser, ck, "C11.R7")
 
     # ---- R5
     pairs = repo_subclass_pairs(ck)
     lad = extract_ladder(ea.node)
     n = check_ladder_order(ck, R5, ea, lad, pairs, "wire-encode")
     ck.need(n >= 2, "encode_arg ladder: bool/int and datetime/date not comparable (%d)" % n)
-    check_typed_identity(ck, "C11.R6", ("serialization", "reference"))
-    check_enum_distinct(ck, "C11.R3")
-    check_json_bytes(ck, "C11.R3", ["storage_base.DataSourceMetadataSource.put_memento", "storage_base.DefaultCodec.JsonExceptionStrategy.encode"])
-    check_decoders_pure(ck, "C11.R2")
+    ck.run(check_typed_identity, ck, "C11.R6", ("serialization", "reference"))
+    ck.run(check_enum_distinct, ck, "C11.R3")
+    ck.run(check_json_bytes, ck, "C11.R3", ["storage_base.DataSourceMetadataSource.put_memento", "storage_base.DefaultCodec.JsonExceptionStrategy.encode"])
+    ck.run(check_decoders_pure, ck, "C11.R2")
